@@ -117,7 +117,27 @@ EnvS == Bind(env, "$std", NumI(nstd + 17 * supi))      \* stand-in results vary 
 (* pc; the guards are mutually exclusive; a statement no action accepts makes the machine Stuck, *)
 (* which is an error (the program is not executable on the reference model), never a silent end.  *)
 Ready == err = "" /\ I.op # "done"
-OK == Ready /\ Unbound = {}
+(* arithmetic on a tuple coordinate (the coordinate of a flattened rank is the tuple of its source coordinates): Python raises a    *)
+(* TypeError for tuple - tuple, tuple * number, number + tuple, ...; only the forms that certainly fail are flagged; checked on     *)
+(* every expression of the statement (lambda bodies excepted: they are evaluated when applied)                                      *)
+RECURSIVE BadArith(_, _, _)
+BadAny(es, en, st) == \E i \in 1..Len(es) : BadArith(es[i], en, st)
+BadArith(e, en, st) ==
+  CASE e.e = "bin" /\ e.op \in {"+", "-", "*", "/", "//", "%"} ->
+         \/ BadArith(e.l, en, st) \/ BadArith(e.r, en, st)
+         \/ LET a == Eval(e.l, en, st)  b == Eval(e.r, en, st) IN
+            IF e.op = "+" THEN (a.k = "tup") # (b.k = "tup") ELSE a.k = "tup" \/ b.k = "tup"
+    [] e.e \in {"bin", "cmp"} -> BadArith(e.l, en, st) \/ BadArith(e.r, en, st)
+    [] e.e \in {"tuple", "list"} -> BadAny(e.elts, en, st)
+    [] e.e = "index" -> BadArith(e.obj, en, st) \/ BadArith(e.key, en, st)
+    [] e.e = "attr" -> BadArith(e.obj, en, st)
+    [] e.e = "neg" -> BadArith(e.x, en, st)
+    [] e.e = "call" -> BadArith(e.fn, en, st) \/ BadAny(e.args, en, st) \/ \E i \in 1..Len(e.kw) : BadArith(e.kw[i].v, en, st)
+    [] OTHER -> FALSE
+InstrExprs(i) == CASE i.op \in {"assign", "expr"} -> <<i.e>> [] i.op = "aug" -> <<i.dst, i.e>> [] i.op = "setitem" -> <<i.obj, i.key, i.e>>
+                   [] i.op = "for" -> <<i.it>> [] i.op = "if" -> <<i.c>> [] OTHER -> <<>>
+BadI == BadAny(InstrExprs(I), EnvS, store)
+OK == Ready /\ Unbound = {} /\ ~BadI
 Rest(vs) == UNCHANGED vs
 AsgCall(name) == OK /\ I.op = "assign" /\ IsMeth(I.e, name)
 G_TensorCtor == OK /\ I.op = "assign" /\ IsCallTo(I.e, "Tensor")
@@ -141,6 +161,7 @@ TensorMeths == {"fromFiber", "getRoot", "swizzleRanks", "splitUniform", "splitEq
 G_TensorMeth == OK /\ I.op = "assign" /\ I.e.e = "call" /\ I.e.fn.e = "attr" /\ I.e.fn.name \in TensorMeths
 
 UnboundName_ == Ready /\ Unbound # {} /\ Fail("unbound name " \o (CHOOSE x \in Unbound : TRUE))
+TupleArith_ == Ready /\ Unbound = {} /\ BadI /\ Fail("arithmetic on a tuple coordinate")
 TensorCtor_ == G_TensorCtor /\ NewTensor(I.dst, StrSeq(Kw(I.e, "rank_ids")), <<>>) /\ Adv /\ Rest(<<stack, err, upd>>)
 CreateCanvas_ == /\ G_CreateCanvas
                 /\ env' = Bind(env, I.dst, [k |-> "canvas", ar |-> [i \in 1..Len(I.e.args) |-> Len(Obj(I.e.args[i]).ids)]])
@@ -193,19 +214,8 @@ UnflattenRanks_ == /\ AsgCall("unflattenRanks")
                      IF \E p \in DOMAIN m : Len(p[d + 1]) # l + 1 THEN Fail("unflattenRanks: coordinate arity")
                      ELSE /\ NewTensor(I.dst, SubSeq(o.ids, 1, d) \o [i \in 1..(l + 1) |-> "unflat"] \o SubSeq(o.ids, d + 2, Len(o.ids)), Unflatten(m, d, l))
                           /\ Adv /\ Rest(<<stack, err, upd>>)
-(* arithmetic on a tuple coordinate (the coordinate of a flattened rank is the tuple of its source coordinates): Python raises a    *)
-(* TypeError for tuple - tuple, tuple * number, number + tuple, ...; only the forms that certainly fail are flagged              *)
-RECURSIVE BadArith(_, _, _)
-BadArith(e, en, st) ==
-  CASE e.e = "bin" /\ e.op \in {"+", "-", "*", "/", "//", "%"} ->
-         \/ BadArith(e.l, en, st) \/ BadArith(e.r, en, st)
-         \/ LET a == Eval(e.l, en, st)  b == Eval(e.r, en, st) IN
-            IF e.op = "+" THEN (a.k = "tup") # (b.k = "tup") ELSE a.k = "tup" \/ b.k = "tup"
-    [] e.e \in {"tuple", "list"} -> \E i \in 1..Len(e.elts) : BadArith(e.elts[i], en, st)
-    [] OTHER -> FALSE
 AssignValue_ == /\ G_AssignValue
-               /\ IF BadArith(I.e, EnvS, store) THEN Fail("arithmetic on a tuple coordinate")
-                  ELSE LET v == Eval(I.e, EnvS, store) IN
+               /\ LET v == Eval(I.e, EnvS, store) IN
                   /\ env' = Bind(env, I.dst, v) /\ store' = Touch(store, RefsIn(v))
                   /\ Adv /\ Rest(<<objs, stack, err, upd>>)
 SetRankIds_ == /\ G_SetRankIds
@@ -213,9 +223,7 @@ SetRankIds_ == /\ G_SetRankIds
                  IF Len(ids) # Len(objs[oid].ids) THEN Fail("setRankIds: wrong number of rank ids")
                  ELSE objs' = [objs EXCEPT ![oid].ids = ids] /\ Adv /\ Rest(<<env, store, stack, err, upd>>)      \* in place: every alias sees it
 AddActivity_ == /\ G_AddActivity
-               /\ IF BadArith(Kw(I.e, "spacetime"), env, store) \/ \E i \in 1..Len(I.e.args) : BadArith(I.e.args[i], env, store)
-                  THEN Fail("arithmetic on a tuple coordinate") ELSE
-                  LET cv == Eval(I.e.fn.obj, env, store)
+               /\ LET cv == Eval(I.e.fn.obj, env, store)
                       pts == [i \in 1..Len(I.e.args) |-> Eval(I.e.args[i], env, store)]
                       stamp == Eval(Kw(I.e, "spacetime"), env, store) IN
                   IF Len(pts) # Len(cv.ar) \/ \E i \in 1..Len(pts) : Len(pts[i].v) # cv.ar[i]
@@ -292,6 +300,7 @@ Common == /\ UNCHANGED <<pid, cfg, supi, sup, variant>>
           /\ nstd' = IF err' = "" /\ I.op \in {"assign", "aug", "setitem"} THEN nstd + 1 ELSE nstd
 \* every action = its statement-specific part (X_) + the part common to all steps (constants, observers, protocol monitor)
 UnboundName == UnboundName_ /\ Common
+TupleArith == TupleArith_ /\ Common
 TensorCtor == TensorCtor_ /\ Common
 CreateCanvas == CreateCanvas_ /\ Common
 FromFiber == FromFiber_ /\ Common
@@ -320,6 +329,7 @@ Jump == Jump_ /\ Common
 Update == Update_ /\ Common
 Stuck == Stuck_ /\ Common
 Step == \/ UnboundName
+        \/ TupleArith
         \/ TensorCtor
         \/ CreateCanvas
         \/ FromFiber
